@@ -120,6 +120,11 @@ func (d *Decoder) PopRawBytes(size int) []byte {
 		d.err = fmt.Errorf("can't read %v raw bytes: %v left", size, d.buf.Len())
 		return nil
 	}
+	if size == 0 {
+		// nothing to read: asking the reader for zero bytes at the very end of the data answers io.EOF,
+		// which is not an error of the message (a contained message with an empty body as the last member)
+		return []byte{}
+	}
 
 	val := make([]byte, size)
 	d.read(val)
